@@ -134,7 +134,17 @@ def execute(scn, seed, plans=None, snapshots=True, keep=False, stop_after=None, 
                     st.after = sim.snapshot(root)
                 continue
             if k == "wipe":
-                shutil.rmtree(root / "cond-out", ignore_errors=True)
+                # a project that lacks the versions: fresh cond-out, but an archive that `cond archive`
+                # put there by default survives (as if it had been carried over by hand)
+                co = root / "cond-out"
+                if co.is_dir():
+                    for p in list(co.iterdir()):
+                        if p.name.startswith("cond-archive+") and op.get("keep_archives", True):
+                            continue
+                        if p.is_dir() and not p.is_symlink():
+                            shutil.rmtree(p, ignore_errors=True)
+                        else:
+                            p.unlink()
                 continue
             # a cond invocation
             op = dict(op)
@@ -143,6 +153,10 @@ def execute(scn, seed, plans=None, snapshots=True, keep=False, stop_after=None, 
                 op["out_path"] = str(arch / (op["out"] + ".tar.gz"))
             if k == "restore":
                 src = arch / (op["archive"] + ".tar.gz")
+                if op["archive"] == "@default":
+                    # the archive that `cond archive` (without -o) left in cond-out
+                    cands = sorted((root / "cond-out").glob("cond-archive+*.tar.gz"))
+                    src = cands[-1] if cands else (root / "cond-out" / "missing.tar.gz")
                 if op.get("corrupt"):
                     dst = arch / ("%s-corrupt-%d.tar.gz" % (op["archive"], i))
                     if src.exists():
@@ -163,6 +177,9 @@ def execute(scn, seed, plans=None, snapshots=True, keep=False, stop_after=None, 
                 st.inv = run_forked(world, op, work)
             else:
                 st.inv = world.run_cond(op)
+            if st.inv.deadlock is not None and k != "run":
+                raise RuntimeError("simulated deadlock in a command that starts no task (%s): %s"
+                                   % (k, st.inv.deadlock))
             if snapshots:
                 st.after = sim.snapshot(root)
             if st.inv.killed and st.after is not None and isinstance(st.after["rows"], str):
